@@ -559,16 +559,15 @@ func (n *NEO) PostPersist(ic *interop.Context) error {
 			h        = ic.Block.Index // consider persisting block as stored to get _next_ block newEpochNextValidators
 			numOfCNs = n.cfg.GetNumOfCNs(h + 1)
 		)
-		if cache.votesChanged ||
-			numOfCNs != len(cache.newEpochNextValidators) ||
-			n.cfg.GetCommitteeSize(h+1) != len(cache.newEpochCommittee) {
-			if !isCacheRW {
-				cache = ic.DAO.GetRWCache(n.ID).(*NeoCache)
-			}
-			err := n.updateCachedNewEpochValues(ic.DAO, cache, h, numOfCNs)
-			if err != nil {
-				return fmt.Errorf("failed to update next block newEpoch* cache: %w", err)
-			}
+		// Recompute unconditionally: candidates eligibility depends not only on
+		// votes and registrations (tracked by votesChanged), but also on the
+		// Policy's list of blocked accounts.
+		if !isCacheRW {
+			cache = ic.DAO.GetRWCache(n.ID).(*NeoCache)
+		}
+		err := n.updateCachedNewEpochValues(ic.DAO, cache, h, numOfCNs)
+		if err != nil {
+			return fmt.Errorf("failed to update next block newEpoch* cache: %w", err)
 		}
 	}
 
